@@ -18,8 +18,7 @@ CONSTANTS
   MaxStops = 0
   MaxExpire = 1
   IgnoredStarts = FALSE
-  RaceFinder = FALSE
-  RaceBuffer = FALSE
+  PreRepair = FALSE
 VIEW view
 ACTION_CONSTRAINT GenLog
 CHECK_DEADLOCK FALSE
